@@ -1395,6 +1395,184 @@ func vzGenCanonicalInterleaved(g *vrGen) {
 }
 
 // ---------------------------------------------------------------------------
+// C12/extern-compare: conformance of the assumed contract of bytes.Compare
+// (lexcmp / lexd in /verif/specs/00base.spec) with the real standard library.
+// The clause does not call the repository.
+//
+// Input: {"x":[..],"y":[..]} (the two byte strings; every placement is tried), or
+// {"a":[..],"ao":n,"an":n,"b":[..],"bo":n,"bn":n,"same":bool} (one window of each
+// buffer; with "same" the second window is taken from the array of a, b is ignored).
+
+var vzxAlpha = []byte{0x00, 'a', 0xff}
+
+// vzxAxioms evaluates every lexcmp/lexd axiom on a[ao:ao+an], b[bo:bo+bn] (the
+// windows must lie inside the buffers). It returns the violated axiom with the
+// observed values, or "".
+func vzxAxioms(a []byte, ao, an int, b []byte, bo, bn int) string {
+	lexcmp := bytes.Compare(a[ao:ao+an], b[bo:bo+bn])
+	// lexd has no library counterpart: by lexUnique its only admissible value is
+	// the length of the longest common prefix.
+	lexd := 0
+	for lexd < an && lexd < bn && a[ao+lexd] == b[bo+lexd] {
+		lexd++
+	}
+	where := func() string {
+		return fmt.Sprintf("bytes.Compare(%q, %q) = %d (ao=%d an=%d bo=%d bn=%d, lexd=%d)", a[ao:ao+an], b[bo:bo+bn], lexcmp, ao, an, bo, bn, lexd)
+	}
+	// (1) sign set
+	if !(lexcmp == 0-1 || lexcmp == 0 || lexcmp == 1) {
+		return "axiom (1) result in {-1,0,1}: " + where()
+	}
+	// (2) [lexd] bounds and first difference (hypothesis an >= 0 && bn >= 0 holds)
+	if !(0 <= lexd && lexd <= an && lexd <= bn && (!(lexd < an && lexd < bn) || a[ao+lexd] != b[bo+lexd])) {
+		return "axiom (2) [lexd] bounds / first difference: " + where()
+	}
+	// (3) [lexd] forall x: ao <= x && x < ao + lexd ==> a[x] == b[x - ao + bo]
+	for x := ao; x < ao+lexd; x++ {
+		if !(a[x] == b[x-ao+bo]) {
+			return fmt.Sprintf("axiom (3) [lexd] common prefix at x=%d: %s", x, where())
+		}
+	}
+	// (4) [lexd] forall x: bo <= x && x < bo + lexd ==> a[x - bo + ao] == b[x]
+	for x := bo; x < bo+lexd; x++ {
+		if !(a[x-bo+ao] == b[x]) {
+			return fmt.Sprintf("axiom (4) [lexd] common prefix at x=%d: %s", x, where())
+		}
+	}
+	// (5) [lexcmp] decided at the first difference, else by the lengths
+	want := 0
+	if lexd < an && lexd < bn {
+		if int(a[ao+lexd]) < int(b[bo+lexd]) {
+			want = 0 - 1
+		} else {
+			want = 1
+		}
+	} else if an < bn {
+		want = 0 - 1
+	} else if an > bn {
+		want = 1
+	}
+	if !(lexcmp == want) {
+		return fmt.Sprintf("axiom (5) [lexcmp] the axiom gives %d: %s", want, where())
+	}
+	return ""
+}
+
+func vzxRunCompare(in map[string]any) vrResult {
+	const exp = "every lexcmp/lexd axiom of /verif/specs/00base.spec holds for the real bytes.Compare"
+	fail := func(obs string) vrResult {
+		return vrResult{Observed: obs, Expected: exp, Signature: "extern:compare"}
+	}
+	if _, ok := in["x"]; ok {
+		x, y := vrBytes(in["x"]), vrBytes(in["y"])
+		for _, p := range vzxAlpha {
+			for ao := 0; ao <= 2; ao++ {
+				for bo := 0; bo <= 2; bo++ {
+					pad := func(n int) []byte { return bytes.Repeat([]byte{p}, n) }
+					// separate arrays
+					a := append(append(pad(ao), x...), p)
+					b := append(append(pad(bo), y...), p)
+					// one array: x's window, bo fill bytes, y's window
+					s := append(append(append(append(pad(ao), x...), pad(bo)...), y...), p)
+					var obs string
+					if pn := vrCatch(func() {
+						obs = vzxAxioms(a, ao, len(x), b, bo, len(y))
+						if obs == "" {
+							if obs = vzxAxioms(s, ao, len(x), s, ao+len(x)+bo, len(y)); obs != "" {
+								obs = "both windows in one array: " + obs
+							}
+						}
+					}); pn != nil {
+						return fail(fmt.Sprintf("panic: %v", pn))
+					}
+					if obs != "" {
+						return fail(fmt.Sprintf("fill byte %#x: %s", p, obs))
+					}
+				}
+			}
+		}
+		return vrResult{OK: true, Trivial: len(x) == 0 && len(y) == 0}
+	}
+	a, b := vrBytes(in["a"]), vrBytes(in["b"])
+	if vrBool(in["same"]) {
+		b = a
+	}
+	ao, an, bo, bn := vrInt(in["ao"]), vrInt(in["an"]), vrInt(in["bo"]), vrInt(in["bn"])
+	if ao < 0 || an < 0 || bo < 0 || bn < 0 || ao+an > len(a) || bo+bn > len(b) {
+		return vrResult{OK: true, Trivial: true}
+	}
+	var obs string
+	if pn := vrCatch(func() { obs = vzxAxioms(a, ao, an, b, bo, bn) }); pn != nil {
+		return fail(fmt.Sprintf("panic: %v", pn))
+	}
+	if obs != "" {
+		return fail(obs)
+	}
+	return vrResult{OK: true, Trivial: an == 0 && bn == 0}
+}
+
+func vzxGenCompare(g *vrGen) {
+	maxLen := 4
+	if g.Thorough() {
+		maxLen = 5
+	}
+	var words [][]byte
+	vrWords(vzxAlpha, maxLen, func(w []byte) bool {
+		words = append(words, append([]byte(nil), w...))
+		return true
+	})
+	for _, x := range words {
+		for _, y := range words {
+			g.Case(map[string]any{"x": vrB(x), "y": vrB(y)})
+		}
+	}
+	g.Exhaustive(true)
+	r := g.Rand
+	alpha := []byte{0x00, 'a', 0xff, 'b', 0x7f, 0x80}
+	window := func(n int) (int, int) {
+		o := r.Intn(n + 1)
+		return o, r.Intn(n - o + 1)
+	}
+	max := 12000
+	if g.Thorough() {
+		max = 300000
+	}
+	for i := 0; i < max && !g.Expired(); i++ {
+		n := r.Intn(49)
+		if r.Intn(4) == 0 {
+			n = r.Intn(301)
+		}
+		a := vrRandWord(r, alpha[:2+r.Intn(5)], n)
+		ao, an := window(len(a))
+		switch r.Intn(3) {
+		case 0: // unrelated b
+			b := vrRandWord(r, alpha, r.Intn(n+2))
+			bo, bn := window(len(b))
+			g.Case(map[string]any{"a": vrB(a), "ao": ao, "an": an, "b": vrB(b), "bo": bo, "bn": bn, "same": false})
+		case 1: // b = fill + copy of a with at most one byte changed; windows aligned on the same content
+			sh := r.Intn(4)
+			b := append(vrRandWord(r, alpha, sh), a...)
+			if len(a) > 0 && r.Intn(3) > 0 {
+				b[sh+r.Intn(len(a))] = alpha[r.Intn(len(alpha))]
+			}
+			bo, bn := ao+sh, an
+			switch r.Intn(3) {
+			case 0:
+				bn = r.Intn(len(b) - bo + 1)
+			case 1:
+				if an > 0 {
+					an = r.Intn(an + 1)
+				}
+			}
+			g.Case(map[string]any{"a": vrB(a), "ao": ao, "an": an, "b": vrB(b), "bo": bo, "bn": bn, "same": false})
+		default: // both windows in the array of a
+			bo, bn := window(len(a))
+			g.Case(map[string]any{"a": vrB(a), "ao": ao, "an": an, "b": vrB(nil), "bo": bo, "bn": bn, "same": true})
+		}
+	}
+}
+
+// ---------------------------------------------------------------------------
 
 func vzClauses() []vrClause {
 	const interBound = "exhaustive: every ordered pair (seq1, seq2) over ACGT with the longer one of length 0..3 (thorough 0..4) and the shorter one of length 0..2 (0..3), every k in 1..3; then random seq1 over aAcCgGtTnN of length 1..41 / 1..201 with seq2 shorter, equal, longer or of unrelated length (1 in 4 carrying the reverse complement of seq1), k in 1..5"
@@ -1420,6 +1598,11 @@ func vzClauses() []vrClause {
 		{Prop: "C12", Name: "canonical-interleaved",
 			Bound: interBound, Rule: interRule,
 			Gen: vzGenCanonicalInterleaved, Run: vzRunCanonicalInterleaved},
+
+		{Prop: "C12", Name: "extern-compare",
+			Bound: "exhaustive: every ordered pair (x, y) of byte strings over {0x00, 'a', 0xff} of length 0..4 (thorough 0..5; 121 x 121 pairs), each pair compared in 54 placements (one evaluation per pair): x = A[ao:ao+len x], y = B[bo:bo+len y] for every ao, bo in 0..2 and every fill byte p in {0x00, 'a', 0xff} for all bytes of A and B outside the windows (one byte after each window), once with A and B separate arrays and once with both windows in ONE array (y's window bo bytes after x's window); then 12000 (thorough 300000) random cases, fewer if the time share ends first: random windows (ao, an), (bo, bn) of random buffers a over a 2..6-letter prefix of {0x00, 'a', 0xff, 'b', 0x7f, 0x80} of length 0..48 (1 in 4: 0..300, for the vectorised paths of bytes.Compare), b unrelated / a shifted copy of a with at most one byte changed / the same array as a (overlapping windows)",
+			Rule:  "conformance of the ASSUMED contract of bytes.Compare (/verif/specs/00base.spec) with the real standard library; the repository is not called. lexcmp := bytes.Compare(a[ao:ao+an], b[bo:bo+bn]) of the real library; lexd := length of the longest common prefix of the two windows (by lemma lexUnique the only value the axioms allow), then every axiom is evaluated literally, quantifiers by looping: (1) lexcmp == -1 || lexcmp == 0 || lexcmp == 1; (2) [lexd] 0 <= lexd <= an, lexd <= bn, (lexd < an && lexd < bn ==> a[ao+lexd] != b[bo+lexd]); (3) [lexd] forall x, ao <= x < ao+lexd: a[x] == b[x-ao+bo]; (4) [lexd] forall x, bo <= x < bo+lexd: a[x-bo+ao] == b[x]; (5) [lexcmp] lexcmp == ((lexd < an && lexd < bn) ? (a[ao+lexd] < b[bo+lexd] ? -1 : 1) : (an < bn ? -1 : (an > bn ? 1 : 0))), bytes compared as the integers 0..255. trivial: both windows empty, or a window outside its buffer",
+			Gen:   vzxGenCompare, Run: vzxRunCompare},
 
 		{Prop: "C13", Name: "to2bit",
 			Bound: "exhaustive: every src over aAcCgGtT of length 0..4 (thorough 0..6) and over ACGT up to length 7 (9), empty dst; plus 5 dst prefixes x short src, every byte value at every position of 7 contexts (lengths 1..9), then random src (length <= 60 / 400, 1 in 4 with a bad byte) x random dst; spare capacity of dst is pre-filled with 0xFF",
